@@ -45,6 +45,7 @@ def worker(args: argparse.Namespace) -> int:
     rec = Recorder(prop, args.tier, args.seed, os.environ.get("PYTHONHASHSEED", "?"))
     rng = random.Random(f"{args.id}/{args.seed}")
     deadline = time.monotonic() + args.watchdog
+    common._ABORT["out"] = args.out  # noqa: SLF001  (where an aborted shard dumps what it observed)
     if hasattr(prop, "run_shard"):
         prop.run_shard(rec, rng, args.cases, args.shard_index, deadline)
     else:
